@@ -281,7 +281,7 @@ def build_schedules(ctx, quick):
         cfg = core.cfg_variant(ctx, "ABCI_asis.cfg", "ABCI_asis_%s.cfg" % inv, {}, invariants=[inv])
         weak.append(("asis_" + inv, dict(module="ABCI_sock", cfg=cfg, timeout=900, workers=2, label="asis_" + inv)))
     # --- replay material
-    nsim = 60 if quick else 500
+    nsim = 60 if quick else 400
     simp = os.path.join(sp, "abcisim")
     os.makedirs(simp, exist_ok=True)
     jobs.append(("sim_sock", dict(module="ABCI_sock", cfg="ABCI_sock_replay.cfg", simulate="file=%s,num=%d" % (os.path.join(simp, "s"), nsim),
@@ -352,7 +352,7 @@ def build_schedules(ctx, quick):
                 st = sock_steps(states)
                 sock_runs.append({"id": key, "qcap": 2, "steps": st})
                 if key.startswith("att_asis_"):      # interleaving-dependent on real code: three attempts
-                    for k in range(2, 8 if "Panic" in key else 4):
+                    for k in range(2, 13 if "Panic" in key else 4):
                         sock_runs.append({"id": "%s#%d" % (key, k), "qcap": 2, "steps": st, "rep": k})
     for i, beh in enumerate(read_sim(os.path.join(simp, "s"), nsim)):
         sock_runs.append({"id": "sim%d-%d" % (ctx.seed, i), "qcap": 2, "steps": sock_steps(beh)})
@@ -443,8 +443,16 @@ def run(ctx):
     out = ctx.subdir("abci-out")
     bin1 = ctx.go_build_test("abci/client", ["zz_verif_abci_test.go", "zz_verif_abci_conc_test.go"])
     bin2 = ctx.go_build_test("proxy", ["zz_verif_abci_test.go"])
-    extra = {"conc": {"runs": 12 if quick else 90, "calls": 12 if quick else 25}, "local": {"runs": local_runs}}
-    sock_rows, crashes = run_sock_harness(ctx, bin1, sock_runs, out, extra)
+    extra = {"conc": {"runs": 12 if quick else 60, "calls": 12 if quick else 25}, "local": {"runs": local_runs}}
+    # the schedules against the defects of the code as it is depend on goroutine interleavings and may
+    # kill the process: they get a process of their own, first
+    first = [r for r in sock_runs if r["id"].startswith("att_asis_")]
+    rest = [r for r in sock_runs if not r["id"].startswith("att_asis_")]
+    out0 = ctx.subdir("abci-out0")
+    rows0, crashes0 = run_sock_harness(ctx, bin1, first, out0) if first else ([], 0)
+    sock_rows, crashes = run_sock_harness(ctx, bin1, rest, out, extra)
+    sock_rows = rows0 + sock_rows
+    crashes += crashes0
     conc_rows = [r for r in core.read_ndjson(os.path.join(out, "conc.ndjson")) if r["ev"] != "End"]
     local_rows = [r for r in core.read_ndjson(os.path.join(out, "local.ndjson")) if r["ev"] != "End"]
     inp2 = os.path.join(ctx.work, "abci-proxy-in.json")
